@@ -37,7 +37,18 @@ def ratio(x):
         return ["nan", 0]
     if isinstance(x, float) and math.isinf(x):
         return ["inf", 0]
-    return ["num", round(float(x) * 10**6)]
+    v = round(float(x) * 10**6)
+    if abs(v) >= 2**31 - 8:
+        # TLC's integers have 32 bits (and its JSON reader wraps larger ones silently): figures above 2147 s are handed over in milli-units
+        return ["milli", round(float(x) * 10**3)] if abs(float(x)) * 10**3 < 2**31 - 8 else ["huge", 0]
+    return ["num", v]
+
+
+def micro_dur(seconds):
+    v = round(float(seconds) * 10**6)
+    if v >= 2**31 - 8:
+        raise common.MachineryError(f"a run of {seconds} s does not fit the monitor's 32-bit micro-seconds: keep driver durations below 2147 s")
+    return v
 
 
 def stats_json(stats):
@@ -94,7 +105,7 @@ def record_run(params: dict, *, tid: int, workload=None, exact=None, mode="obs",
                "tps": tps, "U": U, "mode": mode, "suspNum": tps, "suspDen": 20 * U,
                "minOneTick": True, "minSuspTick": True, "checkPool": True, "reconcileOnSuspend": True, "requeueShortSuspension": True,
                "policy": "starter" if algo == STARTER_NAME else algo, "duration_ticks": int(full["duration"] * tps),
-               "dur": ratio(full["duration"])[1]}
+               "dur": micro_dur(full["duration"])}
         events.insert(0, {"ev": "hdr", "tid": tid, "mode": mode, "cfg": cfg, "wl": [], "meta": meta or {"d": "-"}})
 
     class RecWorkload:
@@ -234,7 +245,7 @@ def record_run(params: dict, *, tid: int, workload=None, exact=None, mode="obs",
                                   "oc": bool(full["allow_memory_overcommit"]), "multi": bool(full["multi_operator_containers"]),
                                   "tps": tps, "U": U, "mode": mode, "suspNum": tps, "suspDen": 20 * U,
                                   "minOneTick": True, "minSuspTick": True, "checkPool": True, "reconcileOnSuspend": True, "requeueShortSuspension": True,
-                                  "policy": "starter" if algo == STARTER_NAME else algo, "duration_ticks": int(full["duration"] * tps), "dur": ratio(full["duration"])[1]}})
+                                  "policy": "starter" if algo == STARTER_NAME else algo, "duration_ticks": int(full["duration"] * tps), "dur": micro_dur(full["duration"])}})
     pipes = [[(-1 if p.runtime_status().arrival_tick is None else p.runtime_status().arrival_tick),
               (-1 if p.runtime_status().finish_tick is None else p.runtime_status().finish_tick)] for p in idx.pipes]
     end = {"ev": "end", "tid": tid, "t": st["t"], "stats": stats_json(stats) if stats is not None else {"none": 1},
